@@ -365,7 +365,7 @@ fn skew_prologue(ctx: &mut Ctx, rt: &tokio::runtime::Runtime, w: &mut World, nw:
         if ctx.rng.chance(1, 2) { w.dgroup(ctx, rt, &specs, &[]); }
         else if let Some(p) = w.plan(ctx, &specs) { let o: Vec<bool> = p.tasks.iter().map(|_| true).collect(); w.commit(ctx, p, &specs, &o); }
     }
-    for i in 2..=nw { w.register(ctx, i, 100, *ctx.rng.pick(&[1usize, 2, 4]), 0); }
+    for i in 2..=nw { let c = *ctx.rng.pick(&[1usize, 2, 4]); w.register(ctx, i, 100, c, 0); }
     ctx.count("skewed_start");
     let o: Vec<bool> = (0..12).map(|_| !ctx.rng.chance(1, 8)).collect();
     w.rebalance(ctx, rt, &o);
